@@ -103,6 +103,10 @@ def run_case(c):
         rec["ret"] = r if isinstance(r, bool) else False
         if rec["ok"] and not isinstance(r, bool):
             rec.update(ok=False, err="shape:bool return expected")
-        rec["obs"] = bar_proj(b)
+        try:
+            rec["obs"] = bar_proj(b)
+        except Shape as e:       # a bar that cannot be projected (wrong type inside) is reported, not coerced
+            rec.update(ok=False, err="shape:" + str(e)[:80])
+            rec["obs"] = R[-1]["obs"]
         R.append(rec)
     return R
